@@ -136,7 +136,7 @@ class C18(Check):
         return 500 if tier == 'quick' else 4000
 
     def gen(self, rng, tier, i):
-        geom = sc.gen_geom(rng, tier)
+        geom = sc.gen_geom(rng, tier)   # zero hashes ABOVE level 3 are generated for C17 only, see DESIGN 11.0 (round 12)
         f, infos = sc.build(geom)
         writable = int(rng.chance(0.85))
         cm = sc.gen_cmac(rng, geom['kind']) if rng.chance(0.6) else None
